@@ -269,6 +269,22 @@ UEXPR = {
     "z*2+1": lambda z: z * 2 + 1, "abs": lambda z: np.abs(z), "z+z": lambda z: z + z, "conj": lambda z: np.conj(z), "neg": lambda z: -z,
     "square": lambda z: np.square(z), "z-0.5": lambda z: z - 0.5, "1/(abs+1)": lambda z: 1 / (np.abs(z) + 1),
 }
+def _mask(z):
+    return (np.arange(int(np.prod(z.shape))) % 3 != 0).reshape(z.shape)
+
+
+def _where(f, *extra):
+    """ufunc called with where=<mask> and no out=: NumPy leaves the masked-out samples uninitialised, so they are overwritten with 0 here
+    (the result is then a deterministic function of the input)"""
+    def run(z):
+        m = _mask(z)
+        r = f(z, *extra, where=m)
+        return type(r).like(r, np.where(m, r.data, 0))
+    return run
+
+
+# (negation and adding 1.0 are exactly rounded whatever inner loop NumPy picks; a complex product is not bit-reproducible between loops)
+UEXPR.update({"neg_where": _where(np.negative), "add_where": _where(np.add, 1.0), "sub_self_where": lambda z: _where(np.subtract, z)(z)})
 Op("ufunc_expr", _float, lambda d, i: d(st.sampled_from(sorted(UEXPR))), lambda pb, z, a: UEXPR[a](z), needs_len=0)
 
 
